@@ -289,6 +289,8 @@ class Models:
             return v.nonempty
         if isinstance(v, TupleV):
             return bool(v.items)
+        if isinstance(v, GenV):
+            return True
         if isinstance(v, ListV):
             if v.lazy:
                 return True         # a generator object is always truthy
@@ -650,6 +652,17 @@ class Models:
                 self.st.effects.append(("dictcall", d, attr, args, self.where(n)))
                 if attr == "update":
                     src = args[0] if args else None
+                    if isinstance(src, GenV):
+                        from .interp import OpaqueMarker
+                        for it in self.I.gen_iter(src):
+                            if it is OpaqueMarker:
+                                d.opaque_updates = getattr(d, "opaque_updates", []) + [src]
+                                return NONE
+                            if isinstance(it, TupleV) and len(it.items) == 2:
+                                d.items.append((it.items[0], it.items[1]))      # inserted before the next element is built
+                            else:
+                                self.I.unsupported(n, "dict.update item")
+                        return NONE
                     seq = self.iterate(src, n) if src is not None else []
                     if seq is None:
                         d.opaque_updates = getattr(d, "opaque_updates", []) + [src]
@@ -1160,6 +1173,13 @@ class Models:
             return list(v.items)
         if isinstance(v, TermV) and v.items is not None:
             return [TupleV([e, x]) for e, x in v.items]
+        if isinstance(v, GenV):
+            out = list(self.I.gen_iter(v))
+            from .interp import OpaqueMarker
+            if out and out[0] is OpaqueMarker:
+                v.as_list = ListV(None, tag="genexp", opaque_elem=v.opaque_elem)
+                return None
+            return out
         if type(v).__name__ == "IterV":
             rest = v.seq[v.pos:]
             v.pos = len(v.seq)
@@ -1174,6 +1194,8 @@ class Models:
         self.I.unsupported(node, f"iteration over {v!r}")
 
     def opaque_element(self, it, node):
+        if isinstance(it, GenV) and getattr(it, "opaque_elem", None) is not None:
+            return it.opaque_elem
         if isinstance(it, ListV) and it.opaque_elem is not None:
             return it.opaque_elem
         if isinstance(it, TermV):
